@@ -92,7 +92,7 @@ func runR141(c *core.Ctx) {
 		all[o] = true
 	}
 	for o := range all {
-		names = append(names, o.Name())
+		names = append(names, core.NameOf(o))
 	}
 	sort.Strings(names)
 	for _, n := range names {
@@ -109,7 +109,7 @@ func runR141(c *core.Ctx) {
 		for _, ce := range cc.List {
 			if o := core.ObjOf(inf, ce); o != nil {
 				if _, isConst := o.(*types.Const); isConst {
-					c.Check(e[o], rel, "DecodeTunnelledQuery", "decoder case "+o.Name()+" is produced by the encoder", ce.Pos(), "", "the decoder accepts a content type the encoder never emits")
+					c.Check(e[o], rel, "DecodeTunnelledQuery", "decoder case "+core.NameOf(o)+" is produced by the encoder", ce.Pos(), "", "the decoder accepts a content type the encoder never emits")
 				}
 			}
 		}
@@ -689,7 +689,7 @@ func runR033(c *core.Ctx) {
 	var methodParam types.Object
 	for _, fl := range fd.Type.Params.List {
 		for _, n := range fl.Names {
-			if nt, ok := inf.Defs[n].Type().(*types.Named); ok && nt.Obj().Name() == "Method" {
+			if nt, ok := inf.Defs[n].Type().(*types.Named); ok && core.NameOf(nt.Obj()) == "Method" {
 				methodParam = inf.Defs[n]
 			}
 		}
